@@ -12,6 +12,9 @@ func propC20(c *Ctx) propInfo {
 	c.panicFree(e1cfg{roots: roots, pkgs: map[string]bool{"boc": true, "tlb": true, "ton": true, "tl": true}, traverse: trav, maxDepth: c.e1Depth(), exc: mergeExc(excC07, excC08, excC20), excP5: mergeExc(excC07P5, excC08P5)})
 	c.floor("E1.P2-bounds", 100)
 	c.bocHeaderAgreement() // Cell / Any JSON is the hex of the serialised bag of cells
+	c.valueReceivers("E14.value-receivers", "MarshalJSON", "boc", "tlb", "ton", "tl", "wallet", "abi")
+	c.floor("E14.value-receivers", 20)
+	c.bocDedup() // Cell JSON is the serialised bag of cells: two different cells must not be merged
 	return propInfo{
 		explanation: "Static structural clauses of C20 (DESIGN.md §4 C20): for every type with both MarshalJSON and UnmarshalJSON the writer/reader descriptors (quoting, base, signedness and bit size of integer parsing, fift/boc/hex forms, length checks for fixed-size hex) agree; generated integer/bits JSON methods use the declared width and the right parser; no crash construct is reachable from any UnmarshalJSON. Decides these necessary conditions, not value equality after a round trip nor JSON syntactic validity of hand-rolled Sprintf output.",
 	}
